@@ -334,6 +334,15 @@ func runStream(rec *vr.Rec, c ocase) {
 			rec.Violation("C08/"+c.Kind+"/registration-failed-on-2.05", err.Error(), c)
 			return
 		}
+		// Observe returns as soon as the first response was RECOGNISED; its callback runs right after that on the
+		// connection's receive goroutine - and the next call on the connection (the next registration, a request) starts
+		// a second receive goroutine if the first is still busy. What is injected from here on must not overtake the
+		// first response's callback, or the arrival order the connection sees is not the one the model assumes.
+		if !firstCallbackMissed.Load() {
+			if !sim.WaitFor(5*time.Second, func() bool { mu.Lock(); defer mu.Unlock(); return len(o.log) >= 1 }) {
+				firstCallbackMissed.Store(true)
+			}
+		}
 		// model: the first response is delivered
 		o.want = append(o.want, cbEvent{string(o.tok), c.First.Seq, c.First.HasSeq, fmt.Sprintf("o%d-first", i)})
 		if c.First.HasSeq {
@@ -464,6 +473,8 @@ func runStream(rec *vr.Rec, c ocase) {
 		}
 	}
 }
+
+var firstCallbackMissed atomic.Bool
 
 func seqs(l []cbEvent) string {
 	var sb strings.Builder
